@@ -19,20 +19,29 @@ import typing as T
 from . import common
 from .common import Check, MachineryError, scratch
 
+from . import arglist_shapes
+from .arglist_shapes import S
+
 POOL = [
-    # text, kind
-    ('-DV1', (0, 'over', 0, 0, 0)), ('-DV2=2', (0, 'over', 0, 0, 0)), ('-UV3', (0, 'over', 0, 0, 0)),
-    ('-DDUP', (0, 'over', 0, 0, 0)), ('-DDUP=1', (0, 'over', 0, 0, 0)),
-    ('-I/c13/i1', (1, 'over', 0, 0, 0)), ('-I/c13/i2', (1, 'over', 0, 0, 0)), ('-I/c13/dup', (1, 'over', 0, 0, 0)),
-    ('-Wno-c13a', (0, 'none', 0, 0, 0)), ('-Wno-c13b', (0, 'none', 0, 0, 0)),
-    ('-pthread', (0, 'unique', 0, 0, 0)),
+    # text, shape (the kind of a shape comes from the rule book, see arglist_shapes)
+    ('-DV1', S('D')), ('-DV2=2', S('D')), ('-UV3', S('U')),
+    ('-DDUP', S('D')), ('-DDUP=1', S('D')),
+    ('-I/c13/i1', S('I')), ('-I/c13/i2', S('I')), ('-I/c13/dup', S('I')),
+    ('-Wno-c13a', S()), ('-Wno-c13b', S()),
+    ('-pthread', S(exact='once')),
+    # settings whose value ends like a library file name: still settings (ArgListClassify, precedence of the rules)
+    ('-DMODULE_SUFFIX=.so', S('D', 'so')), ('-DMODULE_SUFFIX=.dll', S('D', 'dll')), ('-I/c13/third_party/zlib.a', S('I', 'a')),
+    ('-UIMPLIB.lib', S('U', 'lib')),
 ]
-ENV_OK = {'-DV1', '-DV2=2', '-UV3', '-DDUP', '-DDUP=1', '-I/c13/i1', '-I/c13/i2', '-I/c13/dup'}
+ENV_OK = {'-DV1', '-DV2=2', '-UV3', '-DDUP', '-DDUP=1', '-I/c13/i1', '-I/c13/i2', '-I/c13/dup', '-DMODULE_SUFFIX=.so',
+          '-I/c13/third_party/zlib.a'}
 
 
 def alpha() -> T.List[T.Dict[str, T.Any]]:
+    arglist_shapes.load()
     out = []
-    for j, (_, k) in enumerate(POOL):
+    for j, (_, sh) in enumerate(POOL):
+        k = arglist_shapes.kind_clike(sh)
         out.append({'p': k[0], 'd': k[1], 'g': k[2], 's': k[3], 'ab': k[4], 'm': 0, 'id': j})
     return out
 
